@@ -326,9 +326,48 @@ type bufferedReadSeeker struct {
 	buf       []byte
 	writeHead int
 	readHead  int
+
+	// mu serializes all reads (including the blocking reads of the wrapped source), so that
+	// the bytes read by an abandoned attempt still end up in the buffer, in order.
+	mu sync.Mutex
+	// attempt is incremented by every successful Seek; readers of previous attempts fail.
+	attempt int
+}
+
+var errStaleAttempt = errors.New("the stream is being re-read by a later attempt")
+
+// attemptReader reads the stream on behalf of a single attempt to send it.
+//
+// The HTTP transport can keep reading a request body after the request has failed (or has been
+// answered early), so a retry must not share its reader with the previous attempt: otherwise the
+// two would steal bytes from each other.
+type attemptReader struct {
+	b       *bufferedReadSeeker
+	attempt int
+}
+
+func (b *bufferedReadSeeker) currentAttempt() io.Reader {
+	b.mu.Lock()
+	defer b.mu.Unlock()
+	return &attemptReader{b: b, attempt: b.attempt}
+}
+
+func (a *attemptReader) Read(p []byte) (int, error) {
+	a.b.mu.Lock()
+	defer a.b.mu.Unlock()
+	if a.attempt != a.b.attempt {
+		return 0, errStaleAttempt
+	}
+	return a.b.read(p)
 }
 
 func (b *bufferedReadSeeker) Read(p []byte) (int, error) {
+	b.mu.Lock()
+	defer b.mu.Unlock()
+	return b.read(p)
+}
+
+func (b *bufferedReadSeeker) read(p []byte) (int, error) {
 	// Read from buffer.
 	readFromBuf := copy(p, b.buf[b.readHead:b.writeHead])
 	b.readHead += readFromBuf
@@ -347,10 +386,14 @@ func (b *bufferedReadSeeker) Seek(offset int64, whence int) (int64, error) {
 	if offset < 0 || offset >= int64(len(b.buf)) {
 		return 0, errors.New("invalid offset value")
 	}
+	// This waits for any read that is still in progress, so that whatever it reads is buffered.
+	b.mu.Lock()
+	defer b.mu.Unlock()
 	if b.writeHead >= len(b.buf) {
 		return 0, errors.New("cannot seek, possible buffer overflow")
 	}
 	b.readHead = int(offset)
+	b.attempt++
 	return int64(b.readHead), nil
 }
 
@@ -365,6 +408,7 @@ func postResponseWithRetries(client *http.Client, proxyURL, backendID, requestID
 	proxyReq.Header.Set("Content-Type", "text/plain")
 	var proxyResp *http.Response
 	for retryCount := 0; retryCount <= maxWriteResponseRetryCount; retryCount++ {
+		proxyReq.Body = ioutil.NopCloser(proxyReadSeeker.currentAttempt())
 		if proxyResp, err = client.Do(proxyReq); err != nil {
 			if _, seekErr := proxyReadSeeker.Seek(0, io.SeekStart); seekErr != nil {
 				return err
